@@ -23,6 +23,7 @@ import (
 	"encoding/json"
 	"fmt"
 	"os"
+	"runtime"
 	"sort"
 	"strings"
 
@@ -31,6 +32,10 @@ import (
 	"verifharness/cmd/c20/progs"
 	"verifharness/common"
 )
+
+// heapSlack: live-heap growth between turn n and turn 8n that is still "does not grow with n"
+// (allocator and runtime noise); one retained word per turn exceeds it at n = 2000.
+const heapSlack = 64 << 10
 
 const slack = 4 // "a small constant": a leak of one block per turn exceeds it by orders of magnitude
 
@@ -129,6 +134,8 @@ type growth struct {
 	End          string         // how the run ended
 	Short        bool           // fewer than 8n turns: not judged
 	Grows        bool           // MaxB > MaxA + slack
+	HeapA, HeapB uint64         // live heap (after two forced collections) when turn n and turn 8n are reached
+	HeapGrows    bool           // HeapB > HeapA + heapSlack
 	Ops          map[string]int // opcode histogram of the program text (static)
 }
 
@@ -177,6 +184,18 @@ func measure(query string, needsInputs bool, n int) (g growth, err error) {
 			if turns > 8*n && cc != nil {
 				cc.Limit = 0
 			}
+			if turns == n || turns == 8*n {
+				// retained heap of the live iterator: everything unreachable is collected first
+				runtime.GC()
+				runtime.GC()
+				var ms runtime.MemStats
+				runtime.ReadMemStats(&ms)
+				if turns == n {
+					g.HeapA = ms.HeapAlloc
+				} else {
+					g.HeapB = ms.HeapAlloc
+				}
+			}
 		}
 		f := fp(s)
 		c := comps(s)
@@ -222,6 +241,7 @@ func measure(query string, needsInputs bool, n int) (g growth, err error) {
 	g.Turns, g.Steps = turns, step
 	g.Short = turns < 8*n
 	g.Grows = !g.Short && g.MaxB > g.MaxA+slack
+	g.HeapGrows = !g.Short && g.HeapA > 0 && g.HeapB > g.HeapA+heapSlack
 	return g, nil
 }
 
@@ -516,7 +536,7 @@ func main() {
 	ctx.RunStream(st, lines, impl)
 
 	// ---------- oracle: model-free growth on the real VM -------------------------------------
-	orc := ctx.NewOracle("footprint-growth", fmt.Sprintf("real VM only: max of len(forks)+len(stack.data)+len(scopes.data)+len(paths.data)+len(values) at every instruction over turns (n/2, n] versus (4n, 8n] of the hottest loop pc, n = %d; growth > %d is a violation; controls must grow; distinct = distinct program texts judged (reached 8n turns)", n, slack))
+	orc := ctx.NewOracle("footprint-growth", fmt.Sprintf("real VM only: max of len(forks)+len(stack.data)+len(scopes.data)+len(paths.data)+len(values) at every instruction over turns (n/2, n] versus (4n, 8n] of the hottest loop pc, n = %d; growth > %d is a violation, and so is, for the iteration forms and their variants, a growth of the LIVE HEAP (runtime.GC twice, then HeapAlloc) between turn n and turn 8n beyond 64 KiB; controls must grow; distinct = distinct program texts judged (reached 8n turns)", n, slack))
 	cl := ctx.NewStream("closure", "Gojq.ShVM.explore (Model/ShVM.lean): a closed worklist set implies a bounded real footprint; a growing real footprint implies the worklist does not close",
 		"one case = one program with the verdict measured on the real VM (subjects, controls, form variants, generated tail-recursive definitions, mutants with every recursive call wrapped); the model answers `bounded` when its worklist closes, `grows` when it does not and the real VM grows, and `?imprecise` (not compared) when it does not close below the cap although this run of the real VM is bounded (data-dependent bound the data-forgetting model cannot see, or cap); distinct = distinct answers")
 	var cLines, cImpl []string
@@ -551,6 +571,16 @@ func main() {
 			ctx.Errorf("control %q did not grow (%d -> %d): the oracle cannot tell a leak", query, g.MaxA, g.MaxB)
 		case !control && g.Grows:
 			ctx.Violate(query, fmt.Sprintf("interpreter state grows with the number of turns: footprint %d after %d turns, %d after %d turns", g.MaxA, n, g.MaxB, 8*n), g.replay(n))
+		case !control && g.HeapGrows && (tag == "subject" || tag == "form-variant"):
+			// judged on the iteration forms themselves only: a generated program that collects its
+			// outputs ([f], reduce … + [x]) grows its own data, which is not interpreter state
+			rp := g.replay(n)
+			rp["observed"] = fmt.Sprintf("live heap after GC: %d bytes at turn %d, %d bytes at turn %d", g.HeapA, n, g.HeapB, 8*n)
+			rp["expected"] = fmt.Sprintf("no growth beyond %d bytes", heapSlack)
+			ctx.Violate("heap:"+query, fmt.Sprintf("the live iterator retains memory that grows with the number of turns: %d bytes live after %d turns, %d after %d turns (VM stacks and registers keep their lengths: the growth is inside a value they hold)", g.HeapA, n, g.HeapB, 8*n), rp)
+		}
+		if os.Getenv("C20_DEBUG") != "" {
+			fmt.Fprintf(os.Stderr, "heap\t%s\t%d\t%d\t%d\t%s\n", tag, g.HeapA, g.HeapB, int64(g.HeapB)-int64(g.HeapA), query)
 		}
 		if code, err := progs.CompileQuery(query, needsInputs, &counter{}); err == nil {
 			if ic, err := inlineCode(code); err == nil {
